@@ -217,6 +217,7 @@ class H5Group:
     def delete(self, id_or_name, delete_if_empty=True):
         """
         Deletes the child HDF5 group that matches the given name or id.
+        (delete_if_empty is accepted for compatibility and has no effect.)
         """
         if util.is_uuid(id_or_name):
             name = self.get_by_id_or_name(id_or_name).name
@@ -226,14 +227,11 @@ class H5Group:
             del self.group[name]
         except Exception:
             raise ValueError("Error deleting {} ".format(name))
-        # Delete if empty and non-root container; a group that is itself an
-        # entity (it carries an entity_id) is never removed as a side effect
-        groupdepth = len(self.group.name.split("/")) - 1
-        if (delete_if_empty and not len(self.group) and groupdepth > 1
-                and "entity_id" not in self.group.attrs):
-            del self.parent.group[self.name]
-            # del self.group
-            self.group = None
+        # The emptied container group is kept (an empty container and a
+        # missing one are equivalent).  Unlinking it here would orphan every
+        # other H5Group object that refers to it: containers obtained through
+        # another handle of the same entity would keep reading the unlinked
+        # group and never see members that are added afterwards.
 
     def delete_all(self, eid):
         """
